@@ -115,7 +115,8 @@ def body(run):
     for i, s in enumerate(pick):
         s = dict(s)
         s["id"] = i + 1
-        s["decoy"] = rnd.random() < 0.5
+        s["decoy"] = rnd.random() < 0.5    # a second connection from the same client Acknowledge object
+        s["sdecoy"] = rnd.random() < 0.5   # a second client (8192/8192) on the same uacp.Listener
         pick[i] = s
     run.log("TLC: %d states; %d of %d scenarios sampled" % (run.cov["states"], len(pick), len(scen)))
     results = run.go_run(exe[0], ["-workers", "12"], cases=pick, timeout=2400)
